@@ -26,6 +26,7 @@ def scan_project(quick, thorough, ps):
 
 LOC = {"pkg": "jerr", "fn": "VerifH_LocationSpec", "quick": {"N": 4, "MIN": 0}, "thorough": {"N": 6, "MIN": 0}}
 LOC_LONG = {"pkg": "jerr", "fn": "VerifH_LocationLong", "quick": {}, "thorough": {}}
+LOC_TAIL = {"pkg": "jerr", "fn": "VerifH_LocationLongTail", "quick": {"T": 6}, "thorough": {"T": 8}}
 TRACE1 = {"pkg": "jerr", "fn": "VerifH_ErrorTrace", "quick": {"N": 4}, "thorough": {"N": 6}}
 TRACE3 = {"pkg": "scanner", "fn": "VerifH_IncludeTraceTree", "quick": {}, "thorough": {}}
 TRACE2 = {"pkg": "scanner", "fn": "VerifH_IncludeTrace", "quick": {"K": 5, "F": 2}, "thorough": {"K": 6, "F": 3}}
@@ -69,6 +70,7 @@ CHECKS = {
    next_total(3, 5, SCAN_ALL),
    next_total(2, 3, [0, 1, 8, 12], stubsets=["schema-len"]),
    LOC,
+   LOC_TAIL,
    scan_project({"N": 2, "M": 1}, {"N": 3, "M": 2}, CORE_ALL),
    {"pkg": "core", "fn": "VerifH_IncludeQuoted", "quick": {"N": 3}, "thorough": {"N": 5}, "stubsets": ["vfs", "location"]},
    {"pkg": "core", "fn": "VerifH_ContextResolution", "quick": {"K": 3}, "thorough": {"K": 5}, "stubsets": ["location"], "tabsets": ["kinds"]},
@@ -96,7 +98,7 @@ CHECKS = {
  },
  "C02": {
   "title": "Diagnostics are well located",
-  "harnesses": [LOC, LOC_LONG, TRACE1, TRACE2, TRACE3, {"pkg": "jerr", "fn": "VerifH_LocationIndependent", "quick": {"N": 2}, "thorough": {"N": 3}},
+  "harnesses": [LOC, LOC_LONG, LOC_TAIL, TRACE1, TRACE2, TRACE3, {"pkg": "jerr", "fn": "VerifH_LocationIndependent", "quick": {"N": 2}, "thorough": {"N": 3}},
    next_total(3, 5, [0, 1, 5, 9, 12, 15]),
    scan_project({"N": 2, "M": 1}, {"N": 3, "M": 2}, [0, 1, 2, 7, 14, 16]),
    doc("VerifH_PipelineTotal", {"K": 2, "MENU": 0}, {"K": 3, "MENU": 0}, budget_violation=True),
@@ -283,8 +285,9 @@ CHECKS = {
    {"pkg": "directive", "fn": "VerifH_QuoteNeutral", "quick": {"N": 4}, "thorough": {"N": 6}},
    doc("VerifH_ParameterDoc", {"N": 3}, {"N": 4}),
    doc("VerifH_ParameterEscapes", {"N": 4}, {"N": 6}),
+   doc("VerifH_ParameterPath", {"N": 3}, {"N": 5}),
   ],
-  "assumptions": ["whole pipeline (VerifH_ParameterDoc): hosts Title, Version, BaseUrl, JSON-RPC Method name; the value is followed by one of: LF, blank LF, TAB LF, blank or TAB and an annotation (Method only), blank or TAB and a comment, end of input; bare values are N bytes over {a b . - @ : / *} not starting with // or /*; quoted values are N bytes over {a blank TAB \" \\ # / *} containing an 'a'; jerr.NewLocation summarised"],
+  "assumptions": ["path clause (VerifH_ParameterPath): '/' + up to N bytes (bare over {a b . - /} not starting with '/', quoted over {a blank # / \" \\}) as the parameter of GET or of URL with a path-less GET inside; asserted only when the document is accepted (which paths are acceptable is another rule): exactly one HTTP interaction, whose path is the written text byte for byte", "whole pipeline (VerifH_ParameterDoc): hosts Title, Version, BaseUrl, JSON-RPC Method name; the value is followed by one of: LF, blank LF, TAB LF, blank or TAB and an annotation (Method only), blank or TAB and a comment, end of input; bare values are N bytes over {a b . - @ : / *} not starting with // or /*; quoted values are N bytes over {a blank TAB \" \\ # / *} containing an 'a'; jerr.NewLocation summarised"],
   "not_decided": ["values longer than N bytes", "the rejection clauses beyond VerifH_ParameterEscapes (raw quoted text of N bytes over {a \\ / n} under Title, BaseUrl, Method: a backslash before anything but a backslash is rejected at that byte, a lone backslash before the closing quote leaves the quote unterminated)", "hosts Query example and path"],
  },
  "C18": {
